@@ -290,7 +290,7 @@ pub fn prop() -> Prop<Case> {
             "interleaving granularity is one transport operation; storage is sequentially consistent",
             "switch points are restricted to operations bracketing lock, listing and mutating operations, so the <=3-switch space is covered where it can matter, not exhausted",
         ],
-        cases: |t| t.pick(8, 400),
+        cases: |t| t.pick(8, 300),
         strategy,
         run,
         enumerate: None,
